@@ -192,6 +192,16 @@ Theorem c09_run_sched_bracket : forall (K : consts) (s : st) (calls : list aspec
 Proof. exact run_sched_bracket. Qed.
 Print Assumptions c09_run_sched_bracket.
 
+(* S20, the scheduler before the fix: it handed its own earlier plan to the job although job_spawned announced the
+   plan computed at spawn time.  Witness (finest interleaving, `run_fine`): a schedule call plans cut 2, an auto call
+   checkpoints cut 2 meanwhile, the schedule call's spawn_job announces cut 1, the job re-creates cut 2 and never
+   creates cut 1.  With the fix the same interleaving creates what was announced. *)
+Theorem c09_created_is_spawned_plan_unfixed_refuted :
+  spawn_plans mm_unfixed = [(1, [2]); (2, [1])] /\ ended_made mm_unfixed = [(1, 0, [2]); (2, 0, [2])]
+  /\ spawn_plans mm_fixed = [(1, [2]); (2, [1])] /\ ended_made mm_fixed = [(1, 0, [2]); (2, 0, [1])].
+Proof. exact mm_facts. Qed.
+Print Assumptions c09_created_is_spawned_plan_unfixed_refuted.
+
 (* stated as observed (replay-safe, not exclusive): two racing schedule calls with block_on_inflight both spawn a job
    and both checkpoint the same cut point; the later frame is the one cut_points reports *)
 Example c09_concurrent_double_spawn_observed :
